@@ -145,7 +145,11 @@ pub fn gen_string<T: Display>(tag_name: &str, value: &T) -> String {
 
 /// The sequence `]]>` would end a CDATA section early, so it gets split across two sections.
 pub fn escape_cdata(value: &str) -> String {
-    value.replace("]]>", "]]]]><![CDATA[>")
+    // XML parsers turn a literal carriage return into a line feed, also inside CDATA sections.
+    // It survives only as character reference, which must be placed between two CDATA sections.
+    value
+        .replace("]]>", "]]]]><![CDATA[>")
+        .replace('\r', "]]>&#13;<![CDATA[")
 }
 
 /// Escapes a string for the usage as attribute value inside double quotes.
